@@ -20,7 +20,7 @@ impl Prop for C17 {
         vec!["long data is only addressed to non-NULL parameters of string type, as client libraries do".into()]
     }
     fn cases(&self, tier: Tier) -> u64 {
-        tier.pick(25_000, 400_000)
+        tier.pick(60000, 600000)
     }
     fn fuzz_plan(&self, tier: Tier) -> Vec<(&'static str, u64)> {
         if tier == Tier::Thorough {
